@@ -317,6 +317,15 @@ pub fn run(tier: Tier) -> (Acc, Vec<Value>) {
                 pool.add(p, || json!({"parsed": s}));
             }
         }
+        // a value whose qualifier came in through a user-defined typed accessor with a mixed-case KEY
+        if let Ok(Ok(p)) = guarded(|| GenericPurlBuilder::new("t".to_owned(), "n").with_typed_qualifier(Some(BuildTag("x"))).build()) {
+            pool.add(p, || json!({"typed_custom": "x"}));
+        }
+        for s in ["pkg:t/n?build_tag=x", "pkg:t/n?Build_Tag=x"] {
+            if let Ok(Ok(p)) = guarded(|| <String as PFlavor>::parse(s)) {
+                pool.add(p, || json!({"parsed": s}));
+            }
+        }
         reps.push(check_pool(&pool, &mut acc));
     }
     #[cfg(feature = "smart")]
@@ -355,6 +364,10 @@ pub fn replay_pair(case: &Value) -> Option<Vec<Violation>> {
                 Some(op) => derive(&p, op),
                 None => Some(p),
             };
+        }
+        if let Some(v) = prov["typed_custom"].as_str() {
+            let v: &'static str = crate::builders::intern(v);
+            return GenericPurlBuilder::new(mk("t")?, "n").with_typed_qualifier(Some(BuildTag(v))).build().ok();
         }
         let b = &prov["built"];
         let mut gb = GenericPurlBuilder::new(mk(b["ty"].as_str()?)?, b["name"].as_str()?).with_namespace(b["ns"].as_str()?).with_version(b["version"].as_str()?).with_subpath(b["subpath"].as_str()?);
